@@ -220,6 +220,8 @@ class AreaBase:
     fixed = frozenset()
     optional = frozenset()   # registers that exist only for some settings (by design)
     has_binary = True
+    img_size = 0             # `size` / prefill byte handed to image_info by the area's export
+    img_fill = 0
     settings_key = "settings"
 
     def __init__(self, case):
@@ -250,6 +252,8 @@ class PfrArea(AreaBase):
         from spsdk.pfr import pfr
         self.cls = {"cmpa": pfr.CMPA, "cfpa": pfr.CFPA, "romcfg": pfr.ROMCFG, "cmactable": pfr.CMACTABLE}[self.kind]
         self.base = pfr.BaseConfigArea
+        self.img_size = self.cls.BINARY_SIZE
+        self.img_fill = int(self.cls.IMAGE_PREFILL_PATTERN, 0)
 
     def template(self):
         from spsdk.utils.schema_validator import CommentedConfig
@@ -528,11 +532,6 @@ def _install_fast_registers_copy():
     _RegistersBase._verif_fast_copy = True
 
 
-def known_finding_for(kind, what_key, detail):
-    """Narrow predicates for recorded open findings (see /verif/known_findings.jsonl)."""
-    return None
-
-
 def run_case(args):
     case, seed, nrand, keys = args
     cid = case_id(case)
@@ -626,7 +625,7 @@ def _run_case(case, seed, nrand, keys, rec):
         if expect:
             bad = readback(regs1, expect, A.optional)
             E(not bad, inp, "a configured in-range value is not the value the loaded object holds (lost or truncated)", bad[:4],
-              finding=_finding_readback(A, bad))
+              finding=_finding_readback(A, regs1, bad))
         _chain(A, o1, inp, rec, kind, expect, settings, c, rng, keys)
 
 
@@ -635,8 +634,42 @@ def _cfg_excerpt(settings):
     return s if len(s) < 400 else s[:400] + "..."
 
 
-def _finding_readback(A, bad):
-    return None
+def _finding_readback(A, regs, bad):
+    """C12-group-wider-than-subregs: every lost value belongs to a grouped register whose sub-registers hold fewer bits
+    than the declared width of the group (mcxn54x/94x revision a0: CUST_MK_SK_KEY_BLOB, DICE_Certificate)."""
+    if not bad or regs is None:
+        return None
+    for reg_name, bf_name, _v, _got in bad:
+        r = pyres(regs.find_reg, reg_name, include_group_regs=True)
+        if bf_name is not None or r[0] != "ok":
+            return None
+        reg = r[1]
+        if not reg.sub_regs or len(reg.sub_regs) * reg.sub_regs[0].width >= reg.width:
+            return None
+    return "C12-group-wider-than-subregs"
+
+
+def _dup_field_mask(reg):
+    names = [b.name for b in reg._bitfields]
+    m = 0
+    for b in reg._bitfields:
+        if names.count(b.name) > 1:
+            m |= ((1 << b.width) - 1) << b.offset
+    return m
+
+
+def _finding_cfg_roundtrip(A, regs_a, regs_b):
+    """C12-duplicate-bitfield-names: the two objects differ only inside bit-fields whose name occurs twice in their register."""
+    if regs_a is None or regs_b is None or len(regs_a._registers) != len(regs_b._registers):
+        return None
+    seen = False
+    for ra, rb in zip(regs_a._registers, regs_b._registers):
+        va, vb = pyres(ra.get_value, True), pyres(rb.get_value, True)
+        if va != vb:
+            if va[0] != "ok" or vb[0] != "ok" or (va[1] ^ vb[1]) & ~_dup_field_mask(ra):
+                return None
+            seen = True
+    return "C12-duplicate-bitfield-names" if seen else None
 
 
 def _check_spec_complete(A, regs, rec):
@@ -665,10 +698,20 @@ def _check_spec_complete(A, regs, rec):
     rec.expect(n_loaded + n_alias >= len({r.get("id", "") for g in spec.get("groups", []) for r in g.get("registers", [])}),
                (rec.cid, "registers", os.path.basename(path)),
                "registers of the area's specification are missing from the loaded register file (the loader gave up silently)",
-               n_loaded + n_alias, n_spec, finding=_finding_incomplete(A, path))
+               n_loaded + n_alias, n_spec, finding=_finding_incomplete(A, path, spec))
 
 
-def _finding_incomplete(A, path):
+def _finding_incomplete(A, path, spec):
+    """C12-fuses-subbyte-width: a fuse specification with registers whose width is not a multiple of 8 bits."""
+    if A.kind != "fuses":
+        return None
+    for g in spec.get("groups", []):
+        for r in g.get("registers", []):
+            try:
+                if int(str(r.get("reg_width", 32)), 0) % 8:
+                    return "C12-fuses-subbyte-width"
+            except ValueError:
+                return None
     return None
 
 
@@ -687,10 +730,12 @@ def _chain(A, o1, inp, rec, kind, expect, settings, cfg, rng, keys):
         if size is not None:
             E(len(b1) == size, inp, "exported binary does not have the documented size", len(b1), size)
         regs1 = A.regs(o1)
+        lay1 = None
         if regs1 is not None:
-            rec.model.append({"op": "export", "vals": raw_values(regs1), "bytes": b1.hex(), "inp": list(map(str, inp)),
-                              "size": getattr(A.cls, "BINARY_SIZE", 0) if isinstance(A, PfrArea) else 0,
-                              "fill": (0xFF if getattr(A.cls, "IMAGE_PREFILL_PATTERN", "0x00") == "0xFF" else 0) if isinstance(A, PfrArea) else 0})
+            lay1 = live_layout(regs1)
+            lay1 = None if lay1 == rec.layout else lay1
+            rec.model.append({"op": "export", "vals": raw_values(regs1), "bytes": b1.hex(), "inp": list(map(str, inp)), "layout": lay1,
+                              "size": A.img_size, "fill": A.img_fill})
         # own parser (+ verifier), export again
         r = pyres(A.parse, b1)
         if E(r[0] == "ok", inp, "the area's own parser rejects the exported binary", r):
@@ -703,9 +748,11 @@ def _chain(A, o1, inp, rec, kind, expect, settings, cfg, rng, keys):
             regs2 = A.regs(o2)
             if regs2 is not None and expect:
                 bad = readback(regs2, expect, A.optional)
-                E(not bad, inp, "a value is not restored by parse(export(x))", bad[:4])
+                E(not bad, inp, "a value is not restored by parse(export(x))", bad[:4], finding=_finding_readback(A, regs2, bad))
             if regs2 is not None and regs1 is not None:
-                rec.model.append({"op": "parse", "bytes": b1.hex(), "vals": raw_values(regs2), "inp": list(map(str, inp))})
+                lay2 = live_layout(regs2)
+                rec.model.append({"op": "parse", "bytes": b1.hex(), "vals": raw_values(regs2), "inp": list(map(str, inp)),
+                                  "layout": None if lay2 == rec.layout else lay2, "size": A.img_size, "fill": A.img_fill})
             src = o2
         else:
             src = o1
@@ -718,11 +765,22 @@ def _chain(A, o1, inp, rec, kind, expect, settings, cfg, rng, keys):
         return
     cfg2 = r[1]
     r = pyres(A.load, json.loads(json.dumps(cfg2)))
-    if not E(r[0] == "ok", inp + (_cfg_excerpt(cfg2.get(A.settings_key, {})),), "the configuration produced by get_config does not load back", r):
+    if not E(r[0] == "ok", inp + (_cfg_excerpt(cfg2.get(A.settings_key, {})),), "the configuration produced by get_config does not load back", r,
+             finding=_finding_cfg_load(A, src)):
         return
     obs3 = pyres(A.observable, r[1])
-    E(obs3 == obs1, inp, "load(get_config(x)) does not export the same as x",
-      first_diff(obs1[1], obs3[1]) if obs3[0] == "ok" and isinstance(obs1[1], bytes) else _obs_diff(obs1, obs3))
+    if obs3 != obs1:
+        E(False, inp, "load(get_config(x)) does not export the same as x",
+          first_diff(obs1[1], obs3[1]) if obs3[0] == "ok" and isinstance(obs1[1], bytes) else _obs_diff(obs1, obs3),
+          finding=_finding_cfg_roundtrip(A, A.regs(o1), A.regs(r[1])))
+
+
+def _finding_cfg_load(A, obj):
+    """C12-cmactable-duplicate-register-names: IFR CMACTABLE, several (reserved) registers share one name."""
+    if A.kind != "cmactable":
+        return None
+    names = [r.name for r in A.regs(obj)._registers]
+    return "C12-cmactable-duplicate-register-names" if len(set(names)) < len(names) else None
 
 
 def _obs_diff(a, b):
@@ -739,6 +797,8 @@ def _area_specific(A, o1, b1, inp, rec, kind, settings, cfg, rng, keys):
     elif kind == "xmcd":
         r = pyres(lambda: o1.crc)
         E(r == ("ok", crc32_mpeg(b1).to_bytes(4, "big")), inp, "XMCD CRC is not CRC-32/MPEG-2 of the exported block", r, crc32_mpeg(b1).to_bytes(4, "big").hex())
+        if r[0] == "ok":
+            rec.model.append({"op": "crc", "bytes": b1.hex(), "crc": int.from_bytes(r[1], "big"), "inp": list(map(str, inp))})
         hdr = int.from_bytes(b1[:4], "little")
         E(len(b1) >= 4 and (hdr >> 28) == 0xC and ((hdr >> 24) & 0xF) == 0 and (hdr & 0xFFF) == len(b1), inp,
           "XMCD header word: tag 0xC / version 0 / configurationBlockSize = total size do not hold in the exported binary", hex(hdr), len(b1))
@@ -766,6 +826,9 @@ def _area_specific(A, o1, b1, inp, rec, kind, settings, cfg, rng, keys):
         from spsdk.utils.misc import value_to_int
         bad = [(n, settings[n], words[i]) for i, n in enumerate(names) if n in settings and i < len(words) and value_to_int(settings[n]) != words[i]]
         E(not bad and len(words) == len(names), inp, "a TrustZone preset word in the binary is not the configured value", bad[:4])
+        vals = pyres(lambda: [value_to_int(v) for v in o1.presets.values()])
+        if vals[0] == "ok":
+            rec.model.append({"op": "tz", "vals": vals[1], "bytes": b1.hex(), "n": len(names), "inp": list(map(str, inp))})
 
 
 def _le32(b, off):
@@ -819,8 +882,7 @@ def _pfr_specific(A, o1, b1, inp, rec, settings, cfg, rng, keys):
         else:
             E(bs[start:start + 4 * count] == SEAL * count and bs[:start] == b1[:start] and bs[start + 4 * count:] == b1[start + 4 * count:]
               and start + 4 * count <= len(bs), inp, "seal marker words are not in place (or sealing disturbed other bytes)", bs[start:start + 4 * count].hex())
-            rec.model.append({"op": "seal", "vals": raw_values(regs), "bytes": bs.hex(), "start": start, "count": count,
-                              "size": A.cls.BINARY_SIZE, "fill": 0xFF if A.cls.IMAGE_PREFILL_PATTERN == "0xFF" else 0, "inp": list(map(str, inp))})
+            rec.model.append({"op": "seal", "vals": raw_values(regs), "bytes": bs.hex(), "start": start, "count": count, "inp": list(map(str, inp))})
             p = pyres(lambda: A.parse(bs).export(draw=False))
             E(p == ("ok", bs), inp, "a sealed page does not parse/export back to itself", p if p[0] != "ok" else first_diff(bs, p[1]))
     # ---- ROTKH from keys (CMPA only, as the CLI does)
@@ -860,7 +922,7 @@ def run(ck):
 
     from spsdk.utils.database import DatabaseManager
     ck.max_fail_per_stream = 40
-    gen_names = ["RegLayouts"]
+    gen_names = ["RegLayouts", "PfrFuns"]
     ck.lean_obligations(generated=gen_names)
     drv = ck.driver()
     ck.assume("YAML parsing (PyYAML safe_load, as SPSDK's load_configuration), YAML emission (ruamel.yaml) and JSON-schema validation "
@@ -879,7 +941,7 @@ def run(ck):
         cases = [c for c in cases if only in case_id(c)]
     jobs = [(c, ck.seed, nrand, keys) for c in cases]
     # big cases first for a better makespan
-    order = {"fuses": 0, "cmpa": 1, "cfpa": 2, "fcb": 3, "romcfg": 4}
+    order = {"fcb": 0, "fuses": 1, "cmpa": 2, "cfpa": 3, "xmcd": 4, "romcfg": 5}
     jobs.sort(key=lambda j: (order.get(j[0][0], 9), case_id(j[0])))
     nproc = int(os.environ.get("VERIF_C12_PROCS", str(min(16, os.cpu_count() or 4))))
     t0 = time.time()
@@ -912,8 +974,128 @@ def run(ck):
     _correspondence(ck, drv, cases, recs)
 
 
+def _csv(vals):
+    return ",".join(str(v) for v in vals) if vals else "-"
+
+
+def _regs_txt(layout, cov=None):
+    """live/meta layout [[off,width,hidden,[[o,w]..]]..] -> driver text (cov = width unless given)"""
+    out = []
+    for i, r in enumerate(layout):
+        c = r[1] if cov is None else cov[i]
+        out.append(",".join(map(str, [r[0], r[1], r[2], c] + [x for f in r[3] for x in f])))
+    return ";".join(out) if out else "-"
+
+
+KIND_NO = {"cmpa": 0, "cfpa": 1, "romcfg": 2, "cmactable": 3, "bca": 4, "fcf": 5, "fcb": 6, "xmcd": 7, "fuses": 8, "memcfg": 9}
+
+
 def _correspondence(ck, drv, cases, recs):
-    pass
+    """generated table vs live objects (infrastructure check) and Lean model vs real code (correspondence)."""
+    meta = ck.generated_meta.get("RegLayouts")
+    if not meta:
+        raise Infra("generated meta for RegLayouts missing")
+    rows, tz_rows, layouts = meta["rows"], meta["tz_rows"], meta["layouts"]
+    live_ids = {r.cid for r in recs}
+    gen_ids = set(rows) | set(tz_rows)
+    only = os.environ.get("VERIF_C12_ONLY")
+    if only:  # debugging aid: a sub-set of the cases
+        gen_ids = {g for g in gen_ids if only in g}
+        rows = {k: v for k, v in rows.items() if k in gen_ids}
+    if live_ids != gen_ids:
+        raise Infra("the statically generated list of (area, family, revision, sub-feature) rows differs from the live database enumeration: "
+                    f"only live {sorted(live_ids - gen_ids)[:5]} only generated {sorted(gen_ids - live_ids)[:5]}")
+    by_id = {r.cid: r for r in recs}
+    mism = []
+    for cid, idx in rows.items():
+        r = by_id[cid]
+        if r.layout is not None and r.layout != layouts[idx]["regs"]:
+            a, b = r.layout, layouts[idx]["regs"]
+            k = next((i for i, (x, y) in enumerate(zip(a, b)) if x != y), min(len(a), len(b)))
+            mism.append((cid, layouts[idx]["file"], f"register #{k}: live {a[k] if k < len(a) else None} generated {b[k] if k < len(b) else None}; "
+                         f"{len(a)} vs {len(b)} registers"))
+    ck.extra["layout_table"] = {"distinct_layouts": len(layouts), "rows": len(rows), "tz_rows": len(tz_rows),
+                                "registers": meta["counts"]["registers"], "bitfields": meta["counts"]["bitfields"],
+                                "rows_compared_with_live_objects": sum(1 for cid in rows if by_id[cid].layout is not None)}
+    if mism:
+        raise Infra("generated register layout differs from the live Registers object (generator replica out of date?): " + json.dumps(mism[:3]))
+    if drv is None:
+        return
+    sm = ck.stream("model_vs_code", "Lean model (drv_c12) against the real code on every vector of the sweep: exported bytes, values after parse, "
+                   "computed-field recomputation, sealed export, TrustZone words, XMCD CRC; plus the Lean layout table against the generator's "
+                   "meta data; non-trivial = distinct request")
+    # ---- Lean table == meta (ties the .lean file to what was compared with the live objects)
+    lines, expect, inputs = [], [], []
+    nl, ntz = drv.ask("count").split()
+    sm.note(("count",), cls="table")
+    sm.compare(("count",), f"{len(layouts)} {len(meta['tz_files'])}", f"{nl} {ntz}", "number of generated layouts")
+    for i, l in enumerate(layouts):
+        comp = ",".join(f"{a}:{b}" for a, b in l["computed"]) or "-"
+        want = (f"{l['file']} {KIND_NO[l['kind']]} {l['size']} {l['fill']} {l['doc']} {1 if l['binary'] else 0} {comp} {l['seal'][0]} {l['seal'][1]} "
+                + _regs_txt(l["regs"], l["cov"]))
+        lines += [f"sel {i}", "dump"]
+        expect += [f"ok {l['nregs']}", want]
+        inputs += [("sel", i), ("dump", i, l["file"])]
+    lines.append("tzwords")
+    expect.append(_csv([v for _k, v in sorted(meta["tz_files"].items())]))
+    inputs.append(("tzwords",))
+    # the checker, executed natively over the whole table (the same statement is kernel-checked in Properties/C12.lean)
+    lines.append("wfall")
+    expect.append(None)
+    inputs.append(("wfall",))
+    # ---- model vs real code
+    for r in recs:
+        cid = r.cid
+        idx = rows.get(cid)
+        cur = None
+        for it in r.model:
+            inp = (cid, it["op"], *it["inp"][1:])
+            if it["op"] == "tz":
+                lines.append(f"tzexport {_csv(it['vals'])}")
+                expect.append("ok:" + it["bytes"] if it["bytes"] else "ok:")
+                inputs.append(inp)
+                lines.append(f"tzparse {it['n']} {it['bytes'] or '-'}")
+                expect.append("ok:" + _csv(it["vals"]))
+                inputs.append(inp + ("parse",))
+                continue
+            want_sel = ("use", json.dumps(it["layout"])) if it.get("layout") is not None else ("sel", idx)
+            if want_sel != cur and it["op"] in ("export", "parse", "seal"):
+                if want_sel[0] == "sel":
+                    lines.append(f"sel {idx}")
+                    expect.append(f"ok {layouts[idx]['nregs']}")
+                else:
+                    lines.append(f"use {it['size']} {it['fill']} {_regs_txt(it['layout'])}")
+                    expect.append(f"ok {len(it['layout'])}")
+                inputs.append((cid, "select"))
+                cur = want_sel
+            if it["op"] == "export":
+                lines.append(f"export {_csv(it['vals'])}")
+                expect.append("ok:" + it["bytes"])
+            elif it["op"] == "crc":
+                lines.append(f"crc {it['bytes']}")
+                expect.append(str(it["crc"]))
+            elif it["op"] == "parse":
+                lines.append(f"parse {it['bytes']} {_csv(it['vals'])}")
+                expect.append(_csv(it["vals"]))
+            elif it["op"] == "seal":
+                lines.append(f"seal {it['start']} {it['count']} {_csv(it['vals'])}")
+                expect.append("ok:" + it["bytes"])
+            elif it["op"] == "compute":
+                rules = ",".join(f"{a}:{b}" for a, b in it["rules"]) or "-"
+                ment = _csv(sorted({a for a, _b in it["rules"]}))
+                lines.append(f"compute {rules} {ment} {_csv(it['before'])}")
+                expect.append(_csv(it["after"]))
+            inputs.append(inp)
+    ans = drv.batch(lines)
+    for ln, want, got, inp in zip(lines, expect, ans, inputs):
+        if inp == ("wfall",):
+            bad = [layouts[int(i)]["file"] for i in got.split(",")] if got not in ("-", "") else []
+            ck.extra["layout_checker"] = {"ill_formed_layouts": bad, "how": "layoutWFb executed natively by drv_c12 over the whole generated table; "
+                                          "the same statement is kernel-checked (decide +kernel) by gen_layouts_wf_partial in Properties/C12.lean"}
+            continue
+        sm.note(inp, cls=inp[1] if len(inp) > 1 and isinstance(inp[1], str) else str(inp[0]))
+        sm.compare(inp, want, got, "Lean model differs from the implementation" if inp[0] not in ("sel", "dump", "tzwords", "count")
+                   else "Lean layout table differs from the generator's meta data")
 
 
 def replay(ck, data):
